@@ -5,7 +5,7 @@
      result : ((step ...) final reduce)
        step   = (res view1 view2 ...)   after every heartbeat, up to and including the first raising one
                 (computed with ingest_step)
-       final  = (res view1 view2 ...)   of ingest_stream on the whole stream (must equal the last step)
+       final  = (res view1 view2 ...)   of ingest_stream on the whole stream (its views must equal the last step's)
        reduce = heartbeat_reduce (hb ...) p    (the right-hand side of the theorem, for the harness to
                 cross-check the statement on the model's own output)
      res / out / view / meta / event : as in ExC02.v
